@@ -73,7 +73,8 @@ def concrete_msg(case):
         return tags.get(str(t))
 
     def ival(t):
-        return to_int(tags.get(str(t)))
+        v = to_int(tags.get(str(t)))
+        return v if v is not None else -(10 ** 12)  # guarded by has()/int_ok() in every clause
 
     def int_ok(t):
         return to_int(tags.get(str(t))) is not None
